@@ -71,3 +71,4 @@ pub fn dht_core_engine_with_validation_mode(
 ) -> anyhow::Result<crate::dht::core_engine::DhtCoreEngine> {
     crate::dht::core_engine::DhtCoreEngine::new_with_validation_mode(node_id, mode)
 }
+pub mod c05;
